@@ -427,7 +427,8 @@ Definition notify_host (k : ip) (online_flag : bool) (s : state) : state :=
   | Some h =>
       if negb (h_dirty h) then s else
       let offl := if online_flag && is4 (h_ip h)
-                  then filter (fun v => match hlookup v (hosts s) with
+                  then filter (fun v => negb (ip_eqb v k) &&      (* v != frame.Host (fix of the C06 duplicate) *)
+                                        match hlookup v (hosts s) with
                                         | Some x => negb (h_online x) && h_dirty x
                                         | None => false end)
                               (mac_hosts (h_mac h) s)
